@@ -48,6 +48,25 @@ func nsState(nm namespace.Manager) string {
 	return strings.Join(names, ",")
 }
 
+// nsStateByName is the same observation made through GetNamespaceByName (what every request
+// handler uses) over the universe of names the histories draw from.
+func nsStateByName(nm namespace.Manager) string {
+	if nm == nil {
+		return "err"
+	}
+	var names []string
+	for _, a := range []string{"A", "B", "C", "D", "E"} {
+		for f := 0; f < 3; f++ {
+			n := fmt.Sprintf("%s%d", a, f)
+			if ns, err := nm.GetNamespaceByName(context.Background(), n); err == nil && ns != nil {
+				names = append(names, n)
+			}
+		}
+	}
+	sort.Strings(names)
+	return strings.Join(names, ",")
+}
+
 func writeAtomic(dir, name string, content []byte) error {
 	tmp := filepath.Join(filepath.Dir(dir), ".tmp-"+name)
 	if err := os.WriteFile(tmp, content, 0o644); err != nil {
@@ -164,6 +183,7 @@ func runWatchCase(t *testing.T, o *Out, id, kind string, evs []watchEv, extIdx i
 		quiet(reg)
 	}
 	var nmFixed namespace.Manager
+	byNameMismatch := ""
 	// the namespace manager as a request gets it: from the configuration, every time
 	getNM := func() namespace.Manager {
 		if viaFile {
@@ -220,13 +240,21 @@ func runWatchCase(t *testing.T, o *Out, id, kind string, evs []watchEv, extIdx i
 		wg.Add(1)
 		go func() {
 			defer wg.Done()
+			iter := 0
 			for {
 				select {
 				case <-stop:
 					return
 				default:
 				}
-				s := nsState(getNM())
+				iter++
+				s := ""
+				s = nsState(getNM())
+				if iter%2 == 1 {
+					// lookups by name go on all the time, as requests would make them; they are judged
+					// only at quiescent points (fifteen lookups are not one atomic observation)
+					_ = nsStateByName(getNM())
+				}
 				mu.Lock()
 				if !seen[s] {
 					seen[s] = true
@@ -260,7 +288,8 @@ func runWatchCase(t *testing.T, o *Out, id, kind string, evs []watchEv, extIdx i
 			} else {
 				content = []string{"class {", "class A implements Namespace { related: { x: Undeclared[] } }", "/* unterminated",
 					"import { Namespace } from \"@ory/keto-namespace-types\"\nclass Ok implements Namespace {}\nclass Broken implements Namespace { related: { x: Nope[] } }\n",
-					"class Ok2 implements Namespace {}\nclass"}[(e.file+ei)%5]
+					"class Ok2 implements Namespace {}\nclass",
+					"import { Namespace, Context } from \"@ory/keto-namespace-types\"\nclass Folder implements Namespace { related: { viewers: Folder[] } }\nclass File implements Namespace { related: { parents: Folder[] }\n permits = { edit: (ctx: Context): boolean => this.related.parents.traverse((p) => p.permits.edit(ctx)) } }\n"}[(e.file+ei)%6]
 			}
 		} else {
 			ext := exts[(e.file+extIdx)%3]
@@ -321,6 +350,11 @@ func runWatchCase(t *testing.T, o *Out, id, kind string, evs []watchEv, extIdx i
 			}
 		}
 		settle(quiet)
+		if a, b := nsState(getNM()), nsStateByName(getNM()); a != b && byNameMismatch == "" {
+			if a2 := nsState(getNM()); a2 == a {
+				byNameMismatch = fmt.Sprintf("after version %d: listed %q, by name %q", ei, a, b)
+			}
+		}
 		// an unrelated hot reload of the configuration file (another key changes): the visible
 		// namespaces must not move
 		if viaFile && (salt+ei)%2 == 0 {
@@ -338,6 +372,11 @@ func runWatchCase(t *testing.T, o *Out, id, kind string, evs []watchEv, extIdx i
 		}
 	}
 	final := nsState(getNM())
+	if byName := nsStateByName(getNM()); byName != final {
+		final = "by-list:" + final + "/by-name:" + byName
+	} else if byNameMismatch != "" {
+		final = "by-name-lookups-stale(" + byNameMismatch + ")/" + final
+	}
 	close(stop)
 	wg.Wait()
 	mu.Lock()
